@@ -2098,3 +2098,82 @@ func init() {
 	reg("C02", ruleEmittedToJsonStartsFromAContainer)
 	reg("C03", ruleEmittedToJsonStartsFromAContainer)
 }
+
+// ---------------------------------------------------------------------------------------------------------------
+// BN2: (*big.Int).Uint64 / Int64 return the low bits and drop the sign; the value must have been tested first.
+// ---------------------------------------------------------------------------------------------------------------
+func ruleBigIntNarrowingIsGuarded(c *core.Ctx) {
+	const rule = "BN2"
+	c.Rule(rule, "module code: every (*big.Int).Uint64() / Int64() is preceded, in the same function, by a test of the same value's size (IsUint64, IsInt64, Cmp, CmpAbs, BitLen; Sign alone where the text is a YAML !!int, which fits in 64 bits): the narrowing drops the sign and the high bits without telling", 3)
+	n := 0
+	for _, d := range c.AllDecls() {
+		p := c.DeclPkg(d)
+		if p == nil || d.Body == nil || c.IsTestFile(d.Pos()) || !strings.HasPrefix(p.PkgPath, core.Mod) {
+			continue
+		}
+		info := p.TypesInfo
+		isBigMethod := func(ce *ast.CallExpr, names ...string) (string, bool) {
+			se, ok := ast.Unparen(ce.Fun).(*ast.SelectorExpr)
+			if !ok {
+				return "", false
+			}
+			f := core.Callee(info, ce)
+			if f == nil || f.Pkg() == nil || f.Pkg().Path() != "math/big" {
+				return "", false
+			}
+			for _, nm := range names {
+				if f.Name() == nm {
+					return strings.TrimPrefix(types.ExprString(se.X), "&"), true
+				}
+			}
+			return "", false
+		}
+		ast.Inspect(d.Body, func(m ast.Node) bool {
+			ce, ok := m.(*ast.CallExpr)
+			if !ok {
+				return true
+			}
+			recv, ok := isBigMethod(ce, "Uint64", "Int64")
+			if !ok {
+				return true
+			}
+			n++
+			// a test of the SIZE (IsUint64, IsInt64, Cmp, CmpAbs, BitLen); a test of the sign alone is enough only where
+			// the text is known to be a YAML !!int (yaml.v3 resolves !!int only for values that fit in 64 bits)
+			guarded, signTested, yamlInt := false, false, false
+			ast.Inspect(d.Body, func(k ast.Node) bool {
+				if bl, ok := k.(*ast.BasicLit); ok && bl.Kind == token.STRING && strings.Contains(bl.Value, "!!int") {
+					yamlInt = true
+				}
+				c2, ok := k.(*ast.CallExpr)
+				if !ok || c2.Pos() >= ce.Pos() {
+					return true
+				}
+				if r2, ok := isBigMethod(c2, "IsUint64", "IsInt64", "Cmp", "CmpAbs", "BitLen"); ok && r2 == recv {
+					guarded = true
+				}
+				if r2, ok := isBigMethod(c2, "Sign"); ok && r2 == recv {
+					signTested = true
+				}
+				return true
+			})
+			if signTested && yamlInt {
+				guarded = true
+			}
+			c.Check(guarded, rule, fmt.Sprintf("%s/%s", c.FuncName(d), types.ExprString(ce)), ce.Pos(), "the sign / range of the value is tested before it is narrowed",
+				"`"+types.ExprString(ce)+"` narrows a big integer whose sign and size were never looked at: a negative value becomes its magnitude (an enum value whose sign flipped counts as unchanged), a large one loses its high bits")
+			return true
+		})
+	}
+	if n == 0 {
+		c.Undecided(rule, "anchor/big.Int narrowing", 0, "none found")
+	}
+}
+
+func init() {
+	reg("C06", ruleBigIntNarrowingIsGuarded)
+	reg("C05", ruleBigIntNarrowingIsGuarded)
+	reg("C09", ruleBigIntNarrowingIsGuarded)
+	reg("C10", ruleBigIntNarrowingIsGuarded)
+	reg("C13", ruleBigIntNarrowingIsGuarded)
+}
